@@ -95,12 +95,14 @@ fn session(seed: u64, nreq: usize, out: &mut Out) {
     let gen = Arc::new(AtomicUsize::new(1));
     let kgen = Arc::new(AtomicUsize::new(1));
     let kcurrent = Arc::new(AtomicUsize::new(1)); // what a client believes the current key generation is
-    let swap_lock = Arc::new(Mutex::new(()));      // one replacement at a time (the daemon has a single reloader)
+    // one replacement of each kind at a time; a catalog replacement and a key-set replacement may overlap
+    let swap_lock = Arc::new(Mutex::new(()));
+    let kswap_lock = Arc::new(Mutex::new(()));
 
     let do_swap = {
-        let (server, gen, kgen, kcurrent, push, swap_lock) = (server.clone(), gen.clone(), kgen.clone(), kcurrent.clone(), push.clone(), swap_lock.clone());
+        let (server, gen, kgen, kcurrent, push, swap_lock, kswap_lock) = (server.clone(), gen.clone(), kgen.clone(), kcurrent.clone(), push.clone(), swap_lock.clone(), kswap_lock.clone());
         Arc::new(move |keys: bool| {
-            let _g = match swap_lock.try_lock() { Ok(g) => g, Err(_) => return };
+            let _g = match (if keys { &kswap_lock } else { &swap_lock }).try_lock() { Ok(g) => g, Err(_) => return };
             if keys {
                 let g = kgen.load(Ordering::SeqCst) + 1;
                 if g > 240 { return; }
@@ -149,7 +151,17 @@ fn session(seed: u64, nreq: usize, out: &mut Out) {
             let mut r = StdRng::seed_from_u64(seed ^ 0x5a5a);
             while running.load(Ordering::SeqCst) {
                 std::thread::sleep(Duration::from_micros(r.gen_range(0..400)));
-                do_swap(r.gen_bool(0.4));
+                do_swap(false);
+            }
+        }).unwrap()
+    };
+    let kswapper = {
+        let (running, do_swap) = (running.clone(), do_swap.clone());
+        std::thread::Builder::new().name("kswapper".into()).spawn(move || {
+            let mut r = StdRng::seed_from_u64(seed ^ 0xa5a5);
+            while running.load(Ordering::SeqCst) {
+                std::thread::sleep(Duration::from_micros(r.gen_range(0..300)));
+                do_swap(true);
             }
         }).unwrap()
     };
@@ -205,6 +217,7 @@ fn session(seed: u64, nreq: usize, out: &mut Out) {
     for h in handles { h.join().unwrap(); }
     running.store(false, Ordering::SeqCst);
     swapper.join().unwrap();
+    kswapper.join().unwrap();
     for h in noise { h.join().unwrap(); }
     // after the last replacement has returned, a request must use the final generations
     {
